@@ -477,6 +477,25 @@ fn min_ada_fn_clause(k: &Knobs, lo: &csl::TransactionOutput, what: &str, out: &m
 
 pub fn eval_c07(sc: &Scenario, h: &History, signed: &Signeds, out: &mut Outcome) {
     let k = &sc.knobs;
+    // a checked collateral call that reports success has accepted (or created) the return the builder now holds,
+    // whatever was in place before the call
+    for e in &h.coll_events {
+        if !e.res.is_ok() {
+            continue;
+        }
+        if let Some(ret) = &e.after.0 {
+            let rb = ret.to_bytes();
+            if let Ok(n) = crate::cbor::parse(&rb) {
+                if let Ok(o) = oracle::output_of(&n) {
+                    out.nontrivial = true;
+                    out.count("c07.collateral_return_checked_after_call", 1);
+                    if let Err(e2) = oracle::output_rules(&rb, &o, k) {
+                        out.violate("C07.collateral_return", "accepted_return_below_min_ada_or_too_large", format!("op {} ({}): reported success, the builder holds a collateral return with: {}", e.op, e.kind, e2));
+                    }
+                }
+            }
+        }
+    }
     // outputs the session hands to the builder, as given and with an empty coin (what the output
     // builder's "minimum required coin" path starts from)
     {
